@@ -13,6 +13,7 @@ import (
 	"github.com/klev-dev/klevdb/pkg/index"
 	"github.com/klev-dev/klevdb/pkg/message"
 	"github.com/klev-dev/klevdb/pkg/segment"
+	"github.com/klev-dev/klevdb/pkg/verifhook"
 )
 
 var (
@@ -174,6 +175,7 @@ func (l *log) Publish(msgs []message.Message) (int64, error) {
 			return OffsetInvalid, err
 		}
 
+		verifhook.Pause("publish.rollover.before-swap")
 		l.readersMu.Lock()
 
 		l.readers[len(l.readers)-1] = oldReader
@@ -181,6 +183,7 @@ func (l *log) Publish(msgs []message.Message) (int64, error) {
 		l.readers = append(l.readers, newWriter.reader)
 
 		l.readersMu.Unlock()
+		verifhook.Pause("publish.rollover.after-swap")
 
 		if err := oldWriter.Close(); err != nil {
 			return OffsetInvalid, err
@@ -406,6 +409,7 @@ func (l *log) delete(offsets map[int64]struct{}) ([]Message, int64, error) {
 		}
 	}
 	l.writerMu.Unlock()
+	verifhook.Pause("delete.target-chosen")
 
 	mversion := l.opts.Version.NewSegmentsVersion.messages
 	iversion := l.opts.Version.NewSegmentsVersion.index
@@ -434,6 +438,7 @@ func (l *log) delete(offsets map[int64]struct{}) ([]Message, int64, error) {
 	if err != nil {
 		return nil, 0, err
 	}
+	verifhook.Pause("delete.after-rewrite")
 
 	if len(rs.DeletedMessages) == 0 {
 		// deleted nothing, just remove rewrite files
@@ -477,6 +482,7 @@ func (l *log) delete(offsets map[int64]struct{}) ([]Message, int64, error) {
 	}
 
 	// we are deleting in a reader segment
+	verifhook.Pause("delete.before-swap")
 	l.readersMu.Lock()
 	defer l.readersMu.Unlock()
 
